@@ -47,6 +47,11 @@ where
         // Ensure rumor ID
         rumor.ensure_id();
 
+        // A caller-supplied id must be the NIP-01 hash of the rumor's own fields
+        rumor
+            .verify_id()
+            .map_err(|_e| Error::Message("Rumor id does not match its content".to_string()))?;
+
         // Serialize as JSON
         let json: String = rumor.as_json();
 
